@@ -35,6 +35,9 @@ BENIGN = [
     ('state_space_contains_explicit_bounds', G + 'spaces.py', "            and state.grid.area.contains(state.agent.position)", "            and 0 <= state.agent.position.y < self.grid_shape.height\n            and 0 <= state.agent.position.x < self.grid_shape.width", ['C01']),
     ('door_flags_as_plain_methods', G + 'grid_object.py', "    @property\n    def blocks_movement(self) -> bool:\n        return not self.is_open", "    @property\n    def blocks_movement(self) -> bool:\n        return self.state is not Door.Status.OPEN", ['C08', 'C10']),
     ('select_kwargs_as_loop', G + 'utils/functions.py', "    return {key: value for key, value in kwargs.items() if key in keys}", "    out = {}\n    for key in kwargs:\n        if key in keys:\n            out[key] = kwargs[key]\n    return out", ['C12', 'C17']),
+    ('transition_copy_shares_stateless_objects', G + 'envs/transition_functions.py', "    next_state = fast_copy(state)\n    transition_function(next_state, action, rng=rng)",
+     "    from gym_gridverse.grid import Grid\n    objects = [[obj if not vars(obj) else fast_copy(obj) for obj in row] for row in state.grid.objects]\n    next_state = State(Grid(objects), fast_copy(state.agent))\n    transition_function(next_state, action, rng=rng)",
+     ['C01', 'C03', 'C08', 'C09', 'C10', 'C11', 'C16']),
     ('compact_maps_as_int64', G + 'representations/state_representations.py', "        self._grid_object_type_map = -np.ones(shape, int)", "        self._grid_object_type_map = -np.ones(shape, np.int64)", ['C15', 'C16']),
 ]
 
